@@ -167,7 +167,7 @@ impl Property for C10 {
             let mut opts = GenOpts::swarm(rng);
             opts.feedback = true;
             opts.max_hidden = rng.range(1, 3);
-            opts.loopback = false;
+            opts.loopback = rng.chance(0.15);
             opts.stateful_optimizers = rng.chance(0.85);
             net = gen_net(rng, &opts);
             tries += 1;
